@@ -213,8 +213,37 @@ pub fn run_c01(ctx: &Ctx) {
             1 => 1.0 + rng.unit() * 1.0,
             _ => 1.5 + rng.unit() * 10.0,
         };
-        let cfg = if rng.chance(1, 2) { Cfg::Default } else { Cfg::Samedec };
-        let a = transmission(lg.line.clone(), &mut rng, &h, lg.lead_in, lg.pause, voice_gap, 7, 7, 2.2);
+        let mut cfg = if rng.chance(1, 2) { Cfg::Default } else { Cfg::Samedec };
+        let mut a = transmission(lg.line.clone(), &mut rng, &h, lg.lead_in, lg.pause, voice_gap, 7, 7, 2.2);
+        // one case in 40: audio normalised to +-1.0 at -10 .. -26 dBFS with the library-default gain limits [0, 1e6],
+        // after 45..60 s of programme at the same level, so that the (slow, additive) AGC has converged before the
+        // transmission starts — "any amplitude inside the configured AGC range" where the range is the default one;
+        // what the AGC has learned must survive from burst to burst
+        let normalised = i % 40 == 19;
+        if normalised {
+            cfg = Cfg::Default;
+            let mut line = lg.line.clone();
+            line.amplitude = 0.05 + rng.unit() * 0.25;
+            line.dc = 0.0;
+            let rate_f = rate as f64;
+            let secs = 45.0 + rng.unit() * 15.0;
+            let f1 = 700.0 + rng.unit() * 600.0;
+            let lead: Vec<f32> = (0..(secs * rate_f) as usize)
+                .map(|k| {
+                    let t = k as f64 / rate_f;
+                    (line.amplitude * (0.7 * (2.0 * std::f64::consts::PI * f1 * t).sin() + 0.3 * (2.0 * std::f64::consts::PI * 2.7 * f1 * t).sin())) as f32
+                })
+                .collect();
+            let tx = transmission(line.clone(), &mut rng, &h, 0.3, lg.pause, voice_gap, 7, 7, 2.2);
+            let mut b = Audio::new(line.clone());
+            b.raw(&lead);
+            let off = b.samples.len();
+            b.raw(&tx.samples);
+            b.bursts = tx.bursts.iter().map(|x| (x.0 + off, x.1 + off)).collect();
+            lg.line = line;
+            lg.lead_in = secs;
+            a = b;
+        }
         ctx.dump("sigc01", i, &a.samples);
         let mut r = build(cfg, rate);
         let (evs, taps) = run_tapped(&mut r, &a.samples);
@@ -1368,7 +1397,12 @@ pub fn run_hostile(ctx: &Ctx) {
             continue;
         }
         let mut rng = case_rng(ctx.seed, 0xC10, i);
-        let rate = pick_rate(&mut rng, i);
+        // thorough tier only, three cases: "any duration" taken seriously — about 37 minutes of idle channel (more than
+        // 2^24 samples, where single-precision sample arithmetic runs out of integers) before the transmission; at
+        // 8 kHz to bound the cost, and without the tick-by-tick model replay (a million ticks per request)
+        let very_long = ctx.tier_thorough && i % 500 == 11;
+        let rate0 = pick_rate(&mut rng, i);
+        let rate = if very_long { 8000 } else { rate0 };
         let lg = gen_line(&mut rng, rate);
         let mut a = Audio::new(lg.line.clone());
         let nseg = rng.range(1, 6);
@@ -1382,6 +1416,10 @@ pub fn run_hostile(ctx: &Ctx) {
                 for k in ks {
                     kinds.push(hostile_segment(&mut a, &mut rng, k));
                 }
+            }
+            None if very_long => {
+                a.silence(2150.0 + rng.unit() * 100.0, &mut rng);
+                kinds.push("very_long_idle");
             }
             None if i % 40 == 7 || i % 40 == 23 => {
                 // directed: the long-idle kind (alone, or after one other segment); it is not drawn at random
@@ -1455,10 +1493,12 @@ pub fn run_hostile(ctx: &Ctx) {
                 out.n_ops += 1;
             }
             Ok((evs, taps, dbg)) => {
-                let (op, imp) = link_op(&taps);
-                out.op(&op, &imp, true);
-                let (op, imp) = rx_op(rate, &taps, &evs);
-                out.op(&op, &imp, true);
+                if !very_long {
+                    let (op, imp) = link_op(&taps);
+                    out.op(&op, &imp, true);
+                    let (op, imp) = rx_op(rate, &taps, &evs);
+                    out.op(&op, &imp, true);
+                }
                 let msgs = messages(&evs);
                 let m = if msgs.is_empty() { "-".to_owned() } else { msgs.iter().map(|(t, s)| format!("{}:{}", t, s)).collect::<Vec<_>>().join(",") };
                 let finite = !(dbg.contains("NaN") || dbg.contains("inf"));
@@ -1470,7 +1510,10 @@ pub fn run_hostile(ctx: &Ctx) {
                 // the long-idle kind every history window has expired and every message of the prefix is closed, so
                 // the messages after the prefix must be those of a fresh receiver given only the rest of the audio
                 // (same texts in the same order, each within a quarter of a second of its cold-start time)
-                if kinds.last() == Some(&"open_header_then_long_idle") {
+                // (not in the marginal region of finding F6 — rate >= 88.2 kHz with a baud-clock error >= 0.5 % — where
+                //  the cold-start run itself loses bursts now and then, so that the two runs may legitimately differ)
+                let f6_region = rate >= 88200 && lg.line.baud_err.abs() >= 0.005;
+                if kinds.last() == Some(&"open_header_then_long_idle") && !f6_region {
                     let mut cold = build(cfg, rate);
                     let cold_msgs = messages(&run_plain(&mut cold, &samples2[prefix_end..]));
                     let rel = |v: &[(u64, String)], off: u64| -> String {
